@@ -63,6 +63,9 @@ const pairMethod = "org.example.script.Echo"
 // value oracle (C03) and, when framing is set, the wire oracle (C02).
 func runPairCase(r *fw.Run, p *Pair, prop string, c *pairCase, framing bool) int {
 	viol := 0
+	if r.ViolationCount() > 12 {
+		return 0 // the tree is broken; the remaining cases would only repeat it slowly
+	}
 	report := func(class, detail string) {
 		viol++
 		r.Violation(prop+" "+class, fmt.Sprintf("transport %s, proxy re-segmentation %d: %s", c.Transport, c.Reseg, detail), c)
@@ -70,7 +73,7 @@ func runPairCase(r *fw.Run, p *Pair, prop string, c *pairCase, framing bool) int
 	p.Proxy.TakeConns()
 	p.Rig.Log.Take()
 	p.Proxy.Reseg = int32(c.Reseg)
-	ctx, cancel := context.WithTimeout(context.Background(), 120*time.Second)
+	ctx, cancel := context.WithTimeout(context.Background(), 25*time.Second)
 	defer cancel()
 	conn, err := p.Connect(ctx)
 	if err != nil {
